@@ -92,7 +92,8 @@ LEVEL_TEXT = ('Machine-checked: (a) for the regenerated skeletons of Router.__ca
               'the judge demands it). Balance is closed under all statement constructors and under acquire/release '
               'bracketing, so arbitrary nestings of the analysed scope programs are balanced '
               '(C13_scope_nesting_balanced); any number of subrequests run one after the other leave the parent state '
-              'alone and add judged segments (C13_star_composition, C13_two_subrequests_in_a_row).')
+              'alone and add judged segments (C13_star_composition, C13_two_subrequests_in_a_row, '
+              'C13_subrequests_in_a_row for any list).')
 LEVEL_NOTE = ('Trusted: Coq kernel; the two translators with their binding / leaf tables; the hand-written parts of the pipeline '
               'model (handle_request, view lookup, exception-view selection: shape-pinned, validated by the fault-injection '
               'correspondence); what a leaf means (prims_of in Model/C13.v); Python harness. The judge proved of the model is the same '
